@@ -34,6 +34,7 @@ func PlanCases(prop, tier string, seed int64) (cases []*Case, rule []string) {
 		add(n(1, 6), "2,050-2,250 documents, two doc-value fields of different sparsity (values only in the first documents / nothing in the middle chunk) written one after the other, built and merged", func() *Case { return g.SparseDVFields(false) })
 		add(n(20, 300), "the byte layout the builder writes (chunks, stored blocks, doc-value chunks) compared with the model's", func() *Case { return g.LayoutCase(false) })
 		add(n(25, 300), "postings looked up through reused lists and iterators (nothing the batch does not imply, also for absent terms)", func() *Case { return g.IterCase(8) })
+		add(n(40, 600), "operation scripts on one chunkedIntCoder (per term: Reset, SetChunkSize with varying chunk sizes and maximal document numbers, ascending Adds, Close, Write) compared with the coder model: chunk boundaries and decompressed contents", func() *Case { return g.UnitIntCoder() })
 	case "C02":
 		add(n(140, 2000), "build 1-4 batches, merge them (also merges of merges) with random deletions and dump the result", func() *Case { return g.MergeObs() })
 		add(n(12, 150), "segments with identical field lists merged without deletions (stored-field byte-copy path across 128-document blocks)", func() *Case { return g.CopyPathMerge() })
@@ -45,6 +46,10 @@ func PlanCases(prop, tier string, seed int64) (cases []*Case, rule []string) {
 		add(n(5, 60), "a zero-document merge output that kept its field list, reloaded and merged in every position with a segment that has fewer fields", func() *Case { return g.ZeroDocFieldsMerge() })
 		add(n(1, 9), "merges with exactly 1,024 or 2,048 survivors (last doc-value and postings chunk exactly full), dumped, reloaded from memory and from a file", func() *Case { return g.ExactChunkMerge() })
 		add(n(1, 6), "three segments sharing the empty term whose cardinality only the sum of all three takes above 1,024: flat, left, right bracketing and single-segment merge dumped", func() *Case { return g.BigAssoc() })
+		add(n(40, 600), "operation scripts on one chunkedIntCoder (per term: Reset, SetChunkSize with varying chunk sizes and maximal document numbers, ascending Adds, Close, Write) compared with the coder model: chunk boundaries and decompressed contents", func() *Case { return g.UnitIntCoder() })
+		add(n(30, 400), "operation scripts on one chunkedContentCoder reused for several fields (Reset in between, sparse fields, skipped chunks) compared with the coder model: per chunk number the header pairs and decompressed data", func() *Case { return g.UnitContentCoder() })
+		add(n(8, 100), "scripts on the stored-field block coder (0-300 documents): block boundaries, sizes and decompressed blocks compared with the coder model", func() *Case { return g.UnitDocCoder() })
+		add(n(40, 600), "the dictionary enumerator (k-way merge) over 1-4 real vellum FSTs (empty dictionaries, the empty term alone or with others, 1-hit values) walked with Current / GetLowIdxsAndValues / Next and compared with the enumerator model", func() *Case { return g.UnitEnumerator() })
 	case "C03":
 		add(n(140, 2000), "merge with random deletion sets (nil, empty, sparse, dense, everything) and report DocumentNumbers", func() *Case { return g.MergeObs() })
 		add(n(12, 150), "segments with identical field lists merged without deletions (byte-copy path across 128-document blocks): content at the reported numbers", func() *Case { return g.CopyPathMerge() })
@@ -73,6 +78,7 @@ func PlanCases(prop, tier string, seed int64) (cases []*Case, rule []string) {
 		add(n(12, 150), "merges through the stored-field byte-copy path whose output blocks end inside a source block", func() *Case { return g.CopyPathMerge() })
 		add(n(4, 60), "merges through the stored-field re-encoding path (deletions, differing field lists) with more than 128 survivors: renumbering across a stored block", func() *Case { return g.ReencodeBlockMerge() })
 		add(n(5, 60), "a zero-document merge output that kept its field list, reloaded and merged in every position with a segment that has fewer fields", func() *Case { return g.ZeroDocFieldsMerge() })
+		add(n(10, 150), "scripts on the stored-field block coder (0-300 documents): block boundaries, sizes and decompressed blocks compared with the coder model", func() *Case { return g.UnitDocCoder() })
 	case "C07":
 		add(n(120, 1800), "doc-value readers over field subsets, forward/backward/random visits", func() *Case { return g.DVCase(false) })
 		add(n(3, 40), "the same on 1030-2230 documents (several 1024-document chunks)", func() *Case { return g.DVCase(true) })
@@ -81,6 +87,7 @@ func PlanCases(prop, tier string, seed int64) (cases []*Case, rule []string) {
 		add(n(1, 10), "2,050-2,250 documents, two doc-value fields of different sparsity (values only in the first documents / nothing in the middle chunk) written one after the other, built and merged", func() *Case { return g.SparseDVFields(false) })
 		add(n(1, 9), "merges with exactly 1,024 or 2,048 survivors (last doc-value and postings chunk exactly full), dumped, reloaded from memory and from a file", func() *Case { return g.ExactChunkMerge() })
 		add(n(6, 80), "twin segments (same shape and offsets, different term bytes or frequencies): lists, iterators, doc-value readers carried from one to the other, then merged", func() *Case { return g.TwinCase() })
+		add(n(40, 600), "operation scripts on one chunkedContentCoder reused for several fields (Reset in between, sparse fields, skipped chunks) compared with the coder model: per chunk number the header pairs and decompressed data", func() *Case { return g.UnitContentCoder() })
 	case "C08":
 		add(n(150, 2500), "dictionary enumeration with key ranges and prefix automata, Contains", func() *Case { return g.DictCase() })
 		add(n(25, 300), "PostingsList lookups of known, unknown-term and unknown-field entries through reused lists (an unknown term yields an empty list whatever was looked up before)", func() *Case { return g.IterCase(10) })
@@ -92,6 +99,7 @@ func PlanCases(prop, tier string, seed int64) (cases []*Case, rule []string) {
 		add(n(3, 30), "single-segment and two-segment merges of 1,030-2,400 document segments (dense terms above 1,024 postings with deletions, an empty doc-value chunk): the model is the flat merge", func() *Case { return g.BigMerge() })
 		add(n(70, 900), "2-4 built segments with random deletions: flat merge, two left bracketings (deletions inside / translated through DocumentNumbers), right bracketing, single-segment merges; full dumps of all variants", func() *Case { return g.AssocCase() })
 		add(n(1, 8), "three segments sharing the empty term whose cardinality only the sum of all three takes above 1,024: flat, left, right bracketing and single-segment merge dumped", func() *Case { return g.BigAssoc() })
+		add(n(40, 600), "the dictionary enumerator (k-way merge) over 1-4 real vellum FSTs (empty dictionaries, the empty term alone or with others, 1-hit values) walked with Current / GetLowIdxsAndValues / Next and compared with the enumerator model", func() *Case { return g.UnitEnumerator() })
 	case "C18":
 		add(n(150, 2500), "DocsMatchingTerms over mixed, repeated, unknown-field and unknown-term lists", func() *Case { return g.DocsMatchingCase() })
 	case "C10":
@@ -100,10 +108,14 @@ func PlanCases(prop, tier string, seed int64) (cases []*Case, rule []string) {
 		add(n(1, 10), "a merge whose term cardinalities sit around the 1,024-posting boundary of the adaptive chunk mode", func() *Case { return g.ChunkBoundaryMerge() })
 		add(n(30, 400), "build or merge, dump, reload from memory and from a file (the model-compared part: the current code round-trips its own files)", func() *Case { return g.PersistLoad() })
 		add(n(1, 8), "2,050-2,250 documents, two doc-value fields of different sparsity (values only in the first documents / nothing in the middle chunk) written one after the other, built and merged", func() *Case { return g.SparseDVFields(true) })
+		add(n(30, 400), "operation scripts on one chunkedIntCoder (per term: Reset, SetChunkSize with varying chunk sizes and maximal document numbers, ascending Adds, Close, Write) compared with the coder model: chunk boundaries and decompressed contents", func() *Case { return g.UnitIntCoder() })
+		add(n(30, 400), "operation scripts on one chunkedContentCoder reused for several fields (Reset in between, sparse fields, skipped chunks) compared with the coder model: per chunk number the header pairs and decompressed data", func() *Case { return g.UnitContentCoder() })
+		add(n(8, 100), "scripts on the stored-field block coder (0-300 documents): block boundaries, sizes and decompressed blocks compared with the coder model", func() *Case { return g.UnitDocCoder() })
 	case "C12":
 		add(n(20, 300), "merge and persist workloads whose complete output is compared with the model (the fault-free baseline of the fault enumeration)", func() *Case { return g.PersistLoad() })
 	case "C14":
 		add(n(60, 900), "build a random batch and dump it: the model is a function of the batch alone, so equality with it is independence from history", func() *Case { return g.BuildObs(false) })
+		add(n(40, 600), "operation scripts on one chunkedIntCoder (per term: Reset, SetChunkSize with varying chunk sizes and maximal document numbers, ascending Adds, Close, Write) compared with the coder model: chunk boundaries and decompressed contents", func() *Case { return g.UnitIntCoder() })
 	case "C15":
 		add(n(40, 600), "merge trees whose inputs are dumped again after the merges took place", func() *Case { return g.ImmutCase() })
 	case "C19":
@@ -134,9 +146,9 @@ func NontrivialTags(prop string) map[string]bool {
 	}
 	switch prop {
 	case "C01":
-		set("multi_chunk", "repeated_field", "composite_loc")
+		set("multi_chunk", "repeated_field", "composite_loc", "coder_reuse")
 	case "C02":
-		set("multi_chunk", "merge_of_merge", "drops_and_survivors", "chunk_boundary", "twin_segments", "reencode_path", "zero_doc_input_with_fields", "exact_chunk_multiple")
+		set("multi_chunk", "merge_of_merge", "drops_and_survivors", "chunk_boundary", "twin_segments", "reencode_path", "zero_doc_input_with_fields", "exact_chunk_multiple", "coder_reuse", "several_inputs")
 	case "C03":
 		set("drops_and_survivors", "zero_survivors", "copy_path", "reencode_path", "zero_doc_input_with_fields")
 	case "C04":
@@ -146,9 +158,9 @@ func NontrivialTags(prop string) map[string]bool {
 	case "C13":
 		set("reuse_pl", "reuse_it", "reader_reuse", "reuse_across_segments")
 	case "C06":
-		set("block_edge", "early_stop", "multi_block", "copy_path", "reencode_path")
+		set("block_edge", "early_stop", "multi_block", "copy_path", "reencode_path", "coder_reuse")
 	case "C07":
-		set("dv_chunk_reentry", "reader_reuse", "sparse_dv_fields", "exact_chunk_multiple", "twin_segments")
+		set("dv_chunk_reentry", "reader_reuse", "sparse_dv_fields", "exact_chunk_multiple", "twin_segments", "coder_reuse")
 	case "C08":
 		set("merged", "loaded", "built")
 	case "C16":
@@ -156,17 +168,17 @@ func NontrivialTags(prop string) map[string]bool {
 	case "C11":
 		set("repersist_loaded")
 	case "C10":
-		set("merge", "multi_chunk", "layout_multi_chunk_term", "layout_multi_block", "layout_1hit", "sparse_dv_fields")
+		set("merge", "multi_chunk", "layout_multi_chunk_term", "layout_multi_block", "layout_1hit", "sparse_dv_fields", "coder_reuse")
 	case "C12", "C19":
 		set("merge", "multi_chunk", "empty_batch", "zero_survivors")
 	case "C14":
-		set("multi_chunk", "repeated_field", "composite_loc")
+		set("multi_chunk", "repeated_field", "composite_loc", "coder_reuse")
 	case "C15":
 		set("merge")
 	case "C09":
 		set("merged", "loaded", "built")
 	case "C17":
-		set("three_inputs_drop_nonlast", "drops", "empty_term_in_all_inputs")
+		set("three_inputs_drop_nonlast", "drops", "empty_term_in_all_inputs", "several_inputs")
 	case "C18":
 		set("field_switch_unknown", "merged")
 	}
